@@ -200,6 +200,16 @@ def xml_to_tupletree_sax(xml_string, meaning, conn_id=None):
             conn_id=conn_id)
         raise pe.with_traceback(org_tb)  # ignore this call in traceback!
 
+    except (ValueError, LookupError) as exc:
+        # Raised by pyexpat (instead of SAXParseException) for an encoding
+        # declaration naming an unknown, multi-byte or non-text codec.
+        pe = XMLParseError(
+            _format("XML parsing error encountered in {0}: Unsupported "
+                    "encoding in XML declaration: {1}", meaning, exc),
+            conn_id=conn_id)
+        pe.__cause__ = None
+        raise pe
+
     return handler.root
 
 
